@@ -176,7 +176,10 @@ fn channel_id_case(ctx: &mut Ctx, idx: usize, w: &World) {
     let rb = |ctx: &mut Ctx, n: usize| -> Vec<u8> { (0..n).map(|_| ctx.prng.gen()).collect() };
     let mr = rb(ctx, 32);
     let cr = rb(ctx, 32);
-    let (la, lb) = (ctx.prng.gen_range(0..20), ctx.prng.gen_range(0..20));
+    // account-info lengths: short, around one byte / two bytes of length field, and beyond 64 KiB
+    let lens = [0usize, 1, 7, 19, 255, 256, 257, 65535, 65536, 65537, 70000];
+    let pickl = |ctx: &mut Ctx| -> usize { if ctx.prng.gen_range(0..3) == 0 { lens[ctx.prng.gen_range(0..lens.len())] } else { ctx.prng.gen_range(0..20) } };
+    let (la, lb) = (pickl(ctx), pickl(ctx));
     let ma = rb(ctx, la);
     let ca = rb(ctx, lb);
     let pk = w.customer.merchant_public_key();
@@ -214,7 +217,8 @@ fn channel_id_case(ctx: &mut Ctx, idx: usize, w: &World) {
         ctx.violation("ChannelId::new is not deterministic", json!({"class": "channel-id-not-deterministic"}));
     }
     // a change to any single input changes the id (same-length replacements and one-byte flips)
-    let flip = |ctx: &mut Ctx, v: &[u8]| -> Option<Vec<u8>> { if v.is_empty() { None } else { let mut x = v.to_vec(); let i = ctx.prng.gen_range(0..x.len()); x[i] ^= 1 << ctx.prng.gen_range(0..8); Some(x) } };
+    // one bit flipped at a random position — or, half of the time, in the last byte (truncation at a length limit)
+    let flip = |ctx: &mut Ctx, v: &[u8]| -> Option<Vec<u8>> { if v.is_empty() { None } else { let mut x = v.to_vec(); let i = if ctx.prng.gen_range(0..2) == 0 { x.len() - 1 } else { ctx.prng.gen_range(0..x.len()) }; x[i] ^= 1 << ctx.prng.gen_range(0..8); Some(x) } };
     let mut alts: Vec<(&str, [u8; 32])> = vec![];
     if let Some(x) = flip(ctx, &mr) { alts.push(("merchant-randomness", id(&x, &cr, &ma, &ca))); }
     if let Some(x) = flip(ctx, &cr) { alts.push(("customer-randomness", id(&mr, &x, &ma, &ca))); }
